@@ -358,6 +358,45 @@ def r_feature_loop(repo, rep, R='R6.4'):
                 okset = {a_, b_} == {A(N('self'), 'x_features'), A(N('self'), 'y_features')}
         rep.check(okset, R, w, 'feature-loop:shared', 'the loop visits exactly the variables seen on both sides (%s)' % show(it)[:90],
                   'the loop visits %s' % show(it)[:90])
+    # what happens to one shared variable is decided by the two compatibility tests and the two is-variable tests alone:
+    # not by what an earlier position bound (two paths that agree on the four tests but differ in a test on self.mapping
+    # and in what they record / answer)
+    by_case = {}
+    untested = []
+    for st, out in SymExec(call, unroll=1).run():
+        enter = [e for e in st.events if e[0] == 'loop-enter']
+        if not enter or out == 'raise':
+            continue
+        it = enter[0][1]
+        var = ('elem', it, enter[0][2].lineno)
+        xf = ('sub', A(N('self'), 'x_features'), var)
+        yf = ('sub', A(N('self'), 'y_features'), var)
+        atoms = {('call', A(xf, 'unifies'), (yf,), ()): 'x~y', ('call', A(yf, 'unifies'), (xf,), ()): 'y~x', A(xf, 'is_variable'): 'xvar', A(yf, 'is_variable'): 'yvar'}
+        i0 = st.events.index(enter[0])
+        case, other = {}, []
+        for e in st.events[i0:]:
+            if e[0] == 'branch':
+                if e[1] in atoms:
+                    case[atoms[e[1]]] = e[2]
+                else:
+                    other.append((e[1], e[2]))
+        sets = tuple((e[2], e[3]) for e in st.events[i0:] if e[0] == 'setitem' and e[1] == A(N('self'), 'mapping'))
+        outcome = (sets, st.ret if out == 'return' and any(e[0] == 'loop-enter' for e in st.events) and not any(e[0] == 'loop-exit' for e in st.events) else 'goes on')
+        by_case.setdefault(tuple(sorted(case.items())), []).append((outcome, other))
+        if 'x~y' not in case and 'y~x' not in case:
+            untested.append([('' if pol else 'not ') + show(c)[:70] for c, pol in other][-1:] or ['a path without any test'])
+    rep.check(not untested, R, w, 'feature-loop:every-position-tested', 'every shared variable position goes through the compatibility test',
+              'a position is passed over without comparing the two features (%s): an incompatible pair there is accepted' % [u[0] for u in untested][:2])
+    state_dep = []
+    for case, outs in by_case.items():
+        if len({o for o, _ in outs}) > 1:
+            for o, other in outs:
+                for c, pol in other:
+                    if any(x == A(N('self'), 'mapping') for x in subterms(c)):
+                        state_dep.append('%s%s' % ('' if pol else 'not ', show(c)[:70]))
+    rep.check(not state_dep, R, w, 'feature-loop:stateless', 'what is recorded for a variable does not depend on bindings made at earlier positions',
+              'the treatment of a shared variable depends on what was bound before (%s): a position is skipped or judged differently once the variable has a value, '
+              'so an incompatible feature further right is accepted' % sorted(set(state_dep))[:2])
     rep.check(fail, R, w, 'feature-loop:fail', 'matching fails exactly when neither side\'s feature unifies with the other',
               'no failing path with both unifies() tests false')
     rep.check(xmap and ymap, R, w, 'feature-loop:instantiation', 'a variable feature on either side is instantiated with the partner\'s feature',
@@ -432,6 +471,7 @@ def check(repo, rep, tier):
     rep.rule('R6.4', 'feature agreement loop: shared variables, failure iff neither unifies, instantiation recorded for variables only')
     rep.rule('R6.5', 'feature compatibility relations of UnaryFeature / TernaryFeature')
     ru.r_provider_typestate(repo, rep)
+    ru.r_instantiation(repo, rep, 'R6.1')
     files = ['depccg/grammar/en.py', 'depccg/grammar/ja.py']
     if tier == 'thorough':
         files = [f for f in repo.py_files('depccg') if not f.startswith(('depccg/allennlp', 'depccg/chainer'))]
